@@ -37,7 +37,7 @@ type c11Concat struct {
 }
 
 const (
-	c11LookupBudget = 20000 // lookups per Resolve call ("step budget")
+	c11LookupBudget = 10000 // lookups per Resolve call ("step budget")
 	c11RefBudget    = 200000
 	c11Timeout      = 20 * time.Second
 )
@@ -49,7 +49,7 @@ func init() {
 			"delimiter triples are the four fixed non-overlapping ones (no character shared by two delimiters of a triple); strings are ASCII",
 			"the model works on token lists (greedy left-to-right lexing for the triple; the resolved placeholder text is re-lexed before lookup); byte-level = token-level matching is validated by the raw stream (random strings and table values over the delimiter CHARACTERS, incl. partial delimiters), not proved",
 			"the concatenation clause is evaluated for pairs whose concatenation lexes to the concatenation of the lexings (no delimiter forms across the junction)",
-			"termination is observed as: at most 20000 lookups per Resolve call and a 20 s wall-clock backstop per batch",
+			"termination is observed as: at most 10000 lookups per Resolve call and a 20 s wall-clock backstop per batch",
 			"lookup tables are Go maps given through props.MapLookup (unique keys)"}})
 	evals["C11"] = c11Eval
 	shrinkers["C11"] = c11Shrink
@@ -58,6 +58,11 @@ func init() {
 // ---------------------------------------------------------------- implementation under test
 
 type c11BudgetHit struct{}
+
+// number of Resolve calls that ran into the step budget so far; once divergence is
+// established (10 hits) later calls get a small budget so that a diverging tree does not
+// cost minutes (each hit is already a recorded failure of the termination clause)
+var c11BudgetHits int
 
 type c11Resolver struct {
 	r props.Resolver
@@ -69,7 +74,7 @@ func c11NewResolver(d [3]string, tbl map[string]string) *c11Resolver {
 	ml := props.MapLookup(tbl)
 	r := props.Builder().Prefix(d[0]).Suffix(d[1]).ValueSeparator(d[2]).LookupFunc(func(k string) *string {
 		*n++
-		if *n > c11LookupBudget {
+		if *n > c11LookupBudget || (c11BudgetHits >= 10 && *n > 400) {
 			panic(c11BudgetHit{})
 		}
 		return ml(k)
@@ -87,6 +92,7 @@ func (cr *c11Resolver) resolve(s string) (out c11Out) {
 	defer func() {
 		if x := recover(); x != nil {
 			if _, ok := x.(c11BudgetHit); ok {
+				c11BudgetHits++
 				out = c11Out{R: "budget"}
 				return
 			}
